@@ -109,6 +109,7 @@ class ExtMethod:
                 # assertions about "the moment the request is handed over" refer to the call, i.e. the
                 # state before the coroutine is suspended in the callee
                 _effect_hooks(I, f"{self_obj.cls.__name__}.{self.name}", args, kwargs)
+                I.ctx.emit("call", f"{self_obj.cls.__name__}.{self.name}", tuple(args), dict(kwargs))
             return ExtAwait(self, self_obj, list(args), dict(kwargs))
         return self.apply_now(I, self_obj, args, kwargs)
 
@@ -559,6 +560,8 @@ def b_len(I, args, kwargs):
         from . import smap
 
         return smap.length(I, v)
+    if type(v).__name__ == "SSet":
+        return SInt(v.card)
     if isinstance(v, Sym):
         raise Unsupported(f"len of {type(v).__name__}")
     if isinstance(v, SObj):
@@ -748,8 +751,31 @@ def b_abs(I, args, kwargs):
     return SInt(z3.If(t < 0, -t, t))
 
 
+class SetIter:
+    def __init__(self, s):
+        self.s = s
+
+
+def b_iter(I, args, kwargs):
+    (v,) = args
+    if type(v).__name__ == "SSet":
+        return SetIter(v)
+    raise Unsupported(f"iter() of {type(v).__name__}")
+
+
 def b_next(I, args, kwargs):
     it = args[0]
+    if isinstance(it, SetIter):
+        s = it.s
+        if not I.ctx.branch(s.card > 0):
+            I.ctx.assume(s.card == 0)
+            if len(args) > 1:
+                return args[1]
+            raise PyRaise(mk_exc(StopIteration))
+        kt = I.ctx.fresh_int(f"{s.name}.first")
+        I.ctx.assume(z3.Select(s.has, kt))
+        s.touched.append(kt)
+        return SInt(kt)
     if isinstance(it, LazyGen):
         g = it.iter()
         for x in g:
@@ -955,8 +981,18 @@ def b_sum(I, args, kwargs):
     return acc
 
 
+class SuperProxy:
+    """super() inside a method of a class whose base lives outside the repository: the base methods are
+    external (assumed) effects named super.<method>"""
+
+    def __init__(self, obj):
+        self.obj = obj
+
+
 def b_super(I, args, kwargs):
-    raise Unsupported("super()")
+    if args:
+        raise Unsupported("super() with arguments")
+    return SuperProxy(getattr(I, "self_obj", None))
 
 
 def b_print(I, args, kwargs):
@@ -1073,7 +1109,7 @@ def builtin_table(I):
     tbl = {
         "len": b_len, "bytes": b_bytes, "bytearray": b_bytearray, "isinstance": b_isinstance, "type": b_type,
         "range": b_range, "min": b_minmax("min"), "max": b_minmax("max"), "abs": b_abs, "next": b_next,
-        "enumerate": b_enumerate, "zip": b_zip, "list": b_list, "tuple": b_tuple, "dict": b_dict, "set": b_set,
+        "iter": b_iter, "enumerate": b_enumerate, "zip": b_zip, "list": b_list, "tuple": b_tuple, "dict": b_dict, "set": b_set,
         "any": b_any, "all": b_all, "callable": b_callable, "getattr": b_getattr, "hasattr": b_hasattr,
         "int": b_int, "bool": b_bool, "str": b_str, "repr": b_repr, "hash": b_hash, "id": b_id,
         "sorted": b_sorted, "sum": b_sum, "super": b_super, "print": b_print, "frozenset": b_frozenset,
@@ -1110,6 +1146,10 @@ def method_model(I, key, self_, args, kwargs):
         from . import smap
 
         return smap.method(I, self_, name, args, kwargs)
+    if kind == "sset":
+        from . import smap
+
+        return smap.sset_method(I, self_, name, args, kwargs)
     if kind == "scoll":
         from . import smap
 
